@@ -198,6 +198,12 @@ fn explore_with(spec: &ReaderSpec, vios: &mut Vec<Violation>, stats: &mut SchedS
                 let (s, d, sh, p) = (spec.clone(), dir.path.clone(), shared.clone(), problems.clone());
                 Box::new(move || caller(s, d, sh, p))
             }),
+            // (the drainer before the readers: the default schedule of the bounded
+            // passes then evicts first, so the readers go to the disk)
+            (ThreadKind::Reader, {
+                let sh = shared.clone();
+                Box::new(move || drainer(sh))
+            }),
             (ThreadKind::Reader, {
                 let (sh, r) = (shared.clone(), results.clone());
                 Box::new(move || reader(1, sh, r, F_R1_DONE))
@@ -205,10 +211,6 @@ fn explore_with(spec: &ReaderSpec, vios: &mut Vec<Violation>, stats: &mut SchedS
             (ThreadKind::Reader, {
                 let (sh, r) = (shared.clone(), results.clone());
                 Box::new(move || reader(2, sh, r, F_R2_DONE))
-            }),
-            (ThreadKind::Reader, {
-                let sh = shared.clone();
-                Box::new(move || drainer(sh))
             }),
         ];
         let res = sched::run_execution(bodies, &mut dfs);
